@@ -854,3 +854,98 @@ Definition reg_text (m : mem) (c : nat) : option (list val) :=
   | Some pb => match nth c pb VUndef with VPtr b 0 => nth_error m b | _ => None end
   | None => None
   end.
+
+(* ------------------------------------------------------------------ reg_done: for (i = 0; i < LEN(bufs); i++) free(bufs[i]); *)
+(* the memory with the blocks the cells point to emptied, one after the other *)
+Fixpoint free_cells (cells : block) (m : mem) : mem :=
+  match cells with [] => m | v :: r => free_cells r (free_cell v m) end.
+Lemma free_cells_snoc l v m : free_cells (l ++ [v]) m = free_cell v (free_cells l m).
+Proof. revert m; induction l as [|x l IH]; intro m; [reflexivity|]. cbn [app free_cells]. apply IH. Qed.
+Lemma firstn_S_cellp (pb : block) i : (i < length pb)%nat -> firstn (S i) pb = firstn i pb ++ [cellp pb i].
+Proof.
+  revert i; induction pb as [|x pb IH]; intros i H; cbn [length] in H; [lia|]. destruct i as [|i]; [reflexivity|].
+  cbn [firstn app]. f_equal. apply IH. lia.
+Qed.
+(* after the first i cells: a block one of them points to is empty, every other block is as it was *)
+Lemma free_cells_blocks m pb lb R : regs_at m pb lb R -> forall i, (i <= 256)%nat ->
+  length (free_cells (firstn i pb) m) = length m /\
+  (forall c b o, (c < i)%nat -> cellp pb c = VPtr b o -> nth_error (free_cells (firstn i pb) m) b = Some []) /\
+  (forall b, (forall c o, (c < i)%nat -> cellp pb c <> VPtr b o) -> nth_error (free_cells (firstn i pb) m) b = nth_error m b).
+Proof.
+  intros H. pose proof (ra_blen _ _ _ _ H) as Hbl. induction i as [|i IH]; intro Hi.
+  - cbn [firstn free_cells]. repeat split; intros; try reflexivity; lia.
+  - destruct (IH ltac:(lia)) as (L & F & K). rewrite firstn_S_cellp by lia. rewrite free_cells_snoc.
+    set (mi := free_cells (firstn i pb) m) in *.
+    destruct (cellp pb i) as [|z|bi oi] eqn:E; cbn [free_cell].
+    + repeat split; [exact L| |].
+      * intros c b o Hc Ec. destruct (Nat.eq_dec c i) as [->|Hne]; [congruence|]. apply (F c b o); [lia|exact Ec].
+      * intros b Hb. apply K. intros c o Hc. apply Hb. lia.
+    + repeat split; [exact L| |].
+      * intros c b o Hc Ec. destruct (Nat.eq_dec c i) as [->|Hne]; [congruence|]. apply (F c b o); [lia|exact Ec].
+      * intros b Hb. apply K. intros c o Hc. apply Hb. lia.
+    + destruct (cell_live m pb lb R i bi oi H ltac:(lia) E) as (-> & _ & Hbi & _).
+      repeat split.
+      * rewrite upd_length by lia. exact L.
+      * intros c b o Hc Ec. destruct (Nat.eq_dec b bi) as [->|Hne]; [apply mem_upd_same; lia|].
+        rewrite mem_upd_other by (try lia; exact Hne). destruct (Nat.eq_dec c i) as [->|Hci]; [congruence|]. apply (F c b o); [lia|exact Ec].
+      * intros b Hb. rewrite mem_upd_other; [apply K; intros c o Hc; apply Hb; lia|lia|].
+        intro X. subst b. apply (Hb i 0); [lia|exact E].
+Qed.
+
+Definition done_loop : stmt := match fn_body cf_reg_done with SSeq _ l => l | _ => SSkip end.
+Lemma done_loop_ok call m pb lb R : regs_at m pb lb R ->
+  forall n i f, (i + n = 256)%nat -> (n < f)%nat ->
+  exec call f done_loop (mkst [VInt (Z.of_nat i)] (free_cells (firstn i pb) m))
+  = ONormal (mkst [VInt 256] (free_cells pb m)).
+Proof.
+  intros H. pose proof (ra_blen _ _ _ _ H) as Hbl. pose proof (ra_bufs _ _ _ _ H) as Hb.
+  destruct globals_small as (G0 & G1 & G2 & G3 & G4 & G5). pose proof (ra_glob _ _ _ _ H) as Hg.
+  induction n as [|n IH]; intros i f Hin Hf; (destruct f as [|f]; [lia|]); unfold done_loop; cbn [fn_body cf_reg_done]; rewrite exec_for; xstep.
+  - change (if 8 =? 0 then Err EDivZero else chk U64 (2048 ÷ 8)) with (@Ok Z 256). xstep.
+    rewrite wrap_U64_id by lia. destruct (Z.ltb_spec (Z.of_nat i) 256); [lia|]. xstep.
+    assert (Ei : firstn i pb = pb) by (replace i with (length pb) by lia; apply firstn_all).
+    rewrite Ei. replace (Z.of_nat i) with 256 by lia. reflexivity.
+  - change (if 8 =? 0 then Err EDivZero else chk U64 (2048 ÷ 8)) with (@Ok Z 256). xstep.
+    rewrite wrap_U64_id by lia. destruct (Z.ltb_spec (Z.of_nat i) 256); [|lia]. xstep.
+    destruct (free_cells_blocks m pb lb R H i ltac:(lia)) as (L & F & K). set (mi := free_cells (firstn i pb) m) in *.
+    assert (Hbi : nth_error mi G_reg__bufs = Some pb).
+    { rewrite K; [exact Hb|]. intros c o Hc E. destruct (cell_live m pb lb R c _ o H ltac:(lia) E) as (_ & Hh & _). unfold heap_blk in Hh. lia. }
+    replace (0 + 1 * Z.of_nat i) with (Z.of_nat i) by lia.
+    rewrite (load_cellp mi pb _ Hbi Hbl) by lia. rewrite Nat2Z.id. xstep.
+    assert (Efree : do_builtin_m BFree [cellp pb i] mi = Ok (VUndef, free_cell (cellp pb i) mi) /\
+                    (cellp pb i = VInt 0 \/ exists b, cellp pb i = VPtr b 0)).
+    { destruct (cellp pb i) as [|z|bi oi] eqn:E.
+      - destruct (cell_shape m pb lb R i H ltac:(lia)) as [X|[b X]]; rewrite E in X; discriminate.
+      - destruct (cell_shape m pb lb R i H ltac:(lia)) as [X|[b X]]; rewrite E in X; [|discriminate]. injection X as ->.
+        split; [reflexivity|left; reflexivity].
+      - destruct (cell_live m pb lb R i bi oi H ltac:(lia) E) as (-> & _ & Hlt & s & l & _ & Hs & _).
+        split; [|right; exists bi; reflexivity]. cbn [free_cell].
+        apply (free_ok mi bi (cstr_block (zb s))).
+        + rewrite K; [exact Hs|]. intros c o Hc E'. destruct (cell_live m pb lb R c bi o H ltac:(lia) E') as (-> & _).
+          pose proof (ra_inj _ _ _ _ H c i bi ltac:(lia) ltac:(lia) E' E). lia.
+        + unfold cstr_block. destruct (map VInt (zb s)); discriminate. }
+    destruct Efree as [Efree Hshape].
+    assert (Ecell : forall (st : state), (match cellp pb i with VUndef => Err EUndef | VInt (Z.pos _) | VInt (Z.neg _) => Err EType
+             | _ => Ok (cellp pb i, st) end) = Ok (cellp pb i, st))
+      by (intro st; destruct Hshape as [E|[b0 E]]; rewrite E; reflexivity).
+    rewrite Ecell. xstep. rewrite Efree. xstep. rewrite chk_I32 by lia. xstep.
+    replace (Z.of_nat i + 1) with (Z.of_nat (S i)) by lia.
+    unfold mi. rewrite <- free_cells_snoc, <- firstn_S_cellp by lia.
+    exact (IH (S i) f ltac:(lia) ltac:(lia)).
+Qed.
+
+(* reg_done(): returns; every block a register pointed to is freed (once: the cells are pairwise distinct, a second free of a
+   block is an error of the semantics), every other block is unchanged; the cells of bufs keep their (now dangling) pointers *)
+Theorem tr_reg_done m pb lb R d fuel : regs_at m pb lb R -> (257 <= fuel)%nat ->
+  callf cprog fuel (S d) F_reg_done [] m = Ok (VUndef, free_cells pb m) /\
+  (forall c b o, (c < 256)%nat -> cellp pb c = VPtr b o -> nth_error (free_cells pb m) b = Some []) /\
+  (forall b, (forall c o, (c < 256)%nat -> cellp pb c <> VPtr b o) -> nth_error (free_cells pb m) b = nth_error m b).
+Proof.
+  intros H Hf. pose proof (ra_blen _ _ _ _ H) as Hbl. split.
+  - enter F_reg_done cf_reg_done. rewrite exec_seq, exec_expr. xcbn.
+    change (SFor _ _ _) with done_loop.
+    change (VInt 0) with (VInt (Z.of_nat 0)). change m with (free_cells (firstn 0 pb) m) at 1.
+    rewrite (done_loop_ok _ m pb lb R H 256 0 fuel) by lia. reflexivity.
+  - destruct (free_cells_blocks m pb lb R H 256 (le_n _)) as (_ & F & K). rewrite <- Hbl, firstn_all in F, K.
+    rewrite Hbl in F, K. split; assumption.
+Qed.
